@@ -289,10 +289,15 @@ fn run_tree(case: &str, xot: &Xot, root: Node, out: &mut Out, stats: &mut Stats)
         chk("child_index_root", show_opt(xot.child_index(v[0], x)), Some(show_opt(if o.parent[i] == Some(0) { want_ci } else { None })), &mut f);
         chk("root", idx(xot.root(x)).to_string(), Some("0".into()), &mut f);
         let top = guard(|| xot.top_element(x));
-        let want_top = if o.is_doc[i] {
-            normal_kids.iter().copied().find(|&c| o.is_elem[c]).map(|c| c.to_string()).unwrap_or("!".into())
-        } else {
-            anc.iter().copied().filter(|&a| o.is_elem[a]).last().unwrap_or(i).to_string()
+        // the outermost element among the node and its ancestors; without one, the document element of the root when the tree
+        // is a document that has one; the node itself otherwise
+        let want_top = match anc.iter().copied().filter(|&a| o.is_elem[a]).last() {
+            Some(e) => e.to_string(),
+            None => {
+                let root = *anc.last().unwrap_or(&i);
+                let first_elem = if o.is_doc[root] { o.kids[root].iter().copied().find(|&c| o.normal(c) && o.is_elem[c]) } else { None };
+                first_elem.unwrap_or(i).to_string()
+            }
         };
         chk("top_element", match top { Ok(t) => idx(t).to_string(), Err(()) => "!".into() }, Some(want_top), &mut f);
         let de = match xot.document_element(x) { Ok(e) => idx(e).to_string(), Err(xot::Error::NotDocument(_)) => "NotDocument".into(), Err(xot::Error::NoElementAtTopLevel) => "NoElementAtTopLevel".into(), Err(e) => format!("{:?}", e) };
